@@ -137,12 +137,12 @@ def main():
             "enable": "RUSTFLAGS='--cfg tokio_rs_tracing_verif' via /verif/sim/.cargo/config.toml; the harness workspace /verif/sim has path dependencies on /repo/* and [patch]es portable-atomic, portable-atomic-util, parking_lot, crossbeam-channel with simulator shims",
             "baseline_off_cmd": "cd /repo && cargo nextest run --workspace --no-fail-fast --offline --test-threads 8 || cargo test --workspace --no-fail-fast --offline",
             "source_commits": [h.split()[0] for h in hooks],
-            "add_only": True,
+            "add_only": False,
         },
         "engines": [{"name": k, "path": "/verif/sim/tsim", "serves_properties": sorted(v), "kind_free_text": "deterministic simulation with fault injection: real OS threads under a seeded baton scheduler (detsim), one fresh process per seed"} for k, v in sorted(engines.items())],
         "checks": checks,
         "not_applicable": na,
-        "notes": "Hook H6 extends the existing check-cfg line in /repo/Cargo.toml (the only non-add-only hook edit). Known findings and fixes: /verif/known_findings.json. Replay: ./check replay <file>.",
+        "notes": "Hooks are add-only lines or cfg-selected imports of a drop-in type (H1 RwLock, H7 AtomicUsize, H8 Instant: the code using them is the same source in both configurations); H6 extends the existing check-cfg line in /repo/Cargo.toml. Known findings and fixes: /verif/known_findings.json. Replay: ./check replay <file>.",
     }
     json.dump(m, open("/verif/MANIFEST.json", "w"), indent=1)
     print("wrote MANIFEST.json:", len(checks), "checks,", len(na), "unclaimed")
